@@ -86,6 +86,7 @@ func c17RunImpl(work string, file []byte, idx desync.Index, n int, sched uint64)
 }
 
 func c17Check(a vh.Args, o *vh.Oracle, r *vh.Result, c *c17Case, corr bool) error {
+	r.Running(c)
 	blob := vh.UnHex(c.BlobHex)
 	file := vh.UnHex(c.FileHex)
 	if c.Digest == "sha256" {
